@@ -3,6 +3,7 @@ package activitypub
 import (
 	"bytes"
 	"encoding/gob"
+	"encoding/json"
 	"errors"
 	"fmt"
 	"io"
@@ -89,6 +90,14 @@ func (i IRI) URL() (*url.URL, error) {
 
 // UnmarshalJSON decodes an incoming JSON document into the receiver object.
 func (i *IRI) UnmarshalJSON(s []byte) error {
+	if len(s) >= 2 && s[0] == '"' {
+		// a JSON string: its escapes (encoding/json writes & as \u0026) are part of the notation, not of the IRI
+		var str string
+		if err := json.Unmarshal(s, &str); err == nil {
+			*i = IRI(str)
+			return nil
+		}
+	}
 	*i = IRI(strings.Trim(string(s), "\""))
 	return nil
 }
